@@ -389,6 +389,21 @@ pub fn c09(thorough: bool) -> Vec<Part> {
         cfgs.push(p);
     }
     {
+        // at capacity: a further client connects and may leave before the server handles it
+        let mut clients = vec![];
+        for _ in 0..10 {
+            clients.push(ClientCfg::filler());
+        }
+        let mut late = ClientCfg::adversary(vec![tagged_get(10, 0)]);
+        late.can_shut_rd = false;
+        late.can_shut_wr = false;
+        clients.push(late);
+        let mut cap = SrvCfg::base("C09", "at capacity: an 11th client connects, sends, closes at any time", clients);
+        cap.release_check = true;
+        cap.orders = Orders::AscRev;
+        cfgs.push(cap);
+    }
+    {
         // two clients that stop reading, one request each: both writes fail in the same batch
         let mk = |c: usize| {
             let mut a = ClientCfg::adversary(vec![tagged_get(c, 0)]);
@@ -525,6 +540,23 @@ pub fn c10(thorough: bool) -> Vec<Part> {
         cfg.max_outstanding_for_respond = 3;
         explore_req(&mut part, &cfg, if thorough { 2_000_000 } else { 300_000 }, if thorough { 1200.0 } else { 100.0 }, &["response_needed_several_writes(short_write)", "client_shutdown_rd", "respond_after_client_closed"]);
     }
+    {
+        // three requests in flight, the client stops reading, answers arrive one by one or as
+        // one enqueue_responses batch: the connection must be reaped once all are absorbed
+        let mut v = tagged_get(1, 0);
+        v.extend_from_slice(&tagged_get(1, 1));
+        v.extend_from_slice(&tagged_get(1, 2));
+        let mut a = ClientCfg::adversary(vec![v]);
+        a.can_close = false;
+        a.can_shut_wr = false;
+        let mut est = ClientCfg::well_behaved(vec![tagged_get(0, 0)]);
+        est.preconnected = true;
+        let mut cfg = SrvCfg::base("C10", "three requests in flight, shutdown(RD), answers singly or as a batch", vec![est, a]);
+        cfg.release_check = true;
+        cfg.closure_all = true;
+        cfg.max_outstanding_for_respond = 3;
+        explore_req(&mut part, &cfg, 300_000, if thorough { 600.0 } else { 60.0 }, &["client_shutdown_rd", "two_requests_yielded_by_one_poll"]);
+    }
     for cfg in cfgs {
         let req: &[&str] = if cfg.label.starts_with("10 established") {
             &["client_connected_at_capacity_and_was_refused", "ten_connections_open", "poll_with_nonascending_order"]
@@ -568,6 +600,20 @@ pub fn c18(thorough: bool) -> Vec<Part> {
         late.twin_without_kill = true;
         late.orders = Orders::Full;
         cfgs.push(late);
+    }
+    {
+        // forty pipelined requests become readable before the kill switch is signalled
+        let mut many = vec![];
+        for k in 0..40 {
+            many.extend_from_slice(&tagged_get(0, k));
+        }
+        let mut m = SrvCfg::base("C18", "forty pipelined requests in one segment + kill at every point", vec![ClientCfg::well_behaved(vec![many])]);
+        m.kill_switch = true;
+        m.kill_action = true;
+        m.orders = Orders::Full;
+        m.max_outstanding_for_respond = 1;
+        m.respond_any = false;
+        cfgs.push(m);
     }
     // all_ready seed
     let mut clients = vec![];
